@@ -37,6 +37,9 @@ pub struct Case {
     pub pres_a: Vec<bool>,
     pub pres_b: Vec<bool>,
     pub zero: Vec<bool>,
+    /// use the compound-assignment / borrowed forms of the operator instead of the owned form
+    #[serde(default)]
+    pub form: u8,
 }
 
 fn grid_value() -> impl Strategy<Value = f64> {
@@ -48,7 +51,28 @@ fn pow2_value() -> impl Strategy<Value = f64> {
 
 pub struct C02;
 
-fn apply<T: DualNum<F> + Clone, F: Flt>(op: Op2, a: &T, b: &T) -> T {
+fn apply<T: DualNum<F> + Clone, F: Flt>(op: Op2, a: &T, b: &T, form: u8) -> T {
+    // forms 1 and 2: `a op= b` and `a op &b` (the property is about the operation, whatever its spelling)
+    if form % 3 == 1 {
+        let mut x = a.clone();
+        match op {
+            Op2::Add => x += b.clone(),
+            Op2::Sub => x -= b.clone(),
+            Op2::Mul => x *= b.clone(),
+            Op2::Div => x /= b.clone(),
+            _ => return apply::<T, F>(op, a, b, 0),
+        }
+        return x;
+    }
+    if form % 3 == 2 {
+        return match op {
+            Op2::Add => a.clone() + b,
+            Op2::Sub => a.clone() - b,
+            Op2::Mul => a.clone() * b,
+            Op2::Div => a.clone() / b,
+            _ => apply::<T, F>(op, a, b, 0),
+        };
+    }
     match op {
         Op2::Add => a.clone() + b.clone(),
         Op2::Sub => a.clone() - b.clone(),
@@ -107,13 +131,20 @@ pub fn check_op<T>(dims: &[usize], op: Op2, fa: &Flat, fb: &Flat, grid: bool, st
 where
     T: Ty + DualNum<<T as Ty>::F>,
 {
+    check_op_form::<T>(dims, op, fa, fb, grid, st, lay, 0)
+}
+
+pub fn check_op_form<T>(dims: &[usize], op: Op2, fa: &Flat, fb: &Flat, grid: bool, st: &mut Stats, lay: &Layout, form: u8) -> Verdict
+where
+    T: Ty + DualNum<<T as Ty>::F>,
+{
     let alg = lay.alg();
         ndv_oracle::ring::set_unit(<T::F as Flt>::U);
     let a = T::from_flat(dims, fa);
     let b = T::from_flat(dims, fb);
     let aj = lay.embed(&alg, &fa.vals, &fa.pres);
     let bj = lay.embed(&alg, &fb.vals, &fb.pres);
-    let lib = apply::<T, T::F>(op, &a, &b);
+    let lib = apply::<T, T::F>(op, &a, &b, form);
     let rf = match apply_ref(op, &aj, &bj) {
         Some(r) if r.all_finite() => r,
         _ => return Verdict::Trivial("reference out of domain"),
@@ -193,7 +224,7 @@ impl<'a> TyVisitor for V<'a> {
         let fb = make_flat::<T::F>(&lay, rb, &snap(&case.b), &case.pres_b, &[false]);
         self.st.class(&format!("type:{}", TYPES[case.ty].name));
         self.st.class(if case.grid { "regime:exact-grid" } else { "regime:rounding" });
-        check_op::<T>(dims, case.op, &fa, &fb, case.grid, self.st, &lay)
+        check_op_form::<T>(dims, case.op, &fa, &fb, case.grid, self.st, &lay, case.form)
     }
 }
 
@@ -233,16 +264,16 @@ impl Property for C02 {
             (0..TYPES.len(), dims_strategy(), op.clone()),
             (proptest::collection::vec(grid_value(), POOL), proptest::collection::vec(grid_value(), POOL)),
             (grid_value(), prop_oneof![grid_value(), pow2_value()]),
-            (presence(), proptest::collection::vec(proptest::bool::weighted(0.75), 8)),
+            (presence(), proptest::collection::vec(proptest::bool::weighted(0.75), 8), any::<u8>()),
         )
-            .prop_map(|((ty, dims, op), (a, b), (ra, rb), ((pres_a, zero), pres_b))| Case { ty, dims, op, grid: true, a, b, ra, rb, pres_a, pres_b, zero });
+            .prop_map(|((ty, dims, op), (a, b), (ra, rb), ((pres_a, zero), pres_b, form))| Case { ty, dims, op, grid: true, a, b, ra, rb, pres_a, pres_b, zero, form });
         let free_case = (
             (0..TYPES.len(), dims_strategy(), op),
             (parts_pool(), parts_pool()),
             (-4.0f64..4.0, -4.0f64..4.0),
-            (presence(), proptest::collection::vec(proptest::bool::weighted(0.75), 8)),
+            (presence(), proptest::collection::vec(proptest::bool::weighted(0.75), 8), any::<u8>()),
         )
-            .prop_map(|((ty, dims, op), (a, b), (ra, rb), ((pres_a, zero), pres_b))| Case { ty, dims, op, grid: false, a, b, ra, rb, pres_a, pres_b, zero });
+            .prop_map(|((ty, dims, op), (a, b), (ra, rb), ((pres_a, zero), pres_b, form))| Case { ty, dims, op, grid: false, a, b, ra, rb, pres_a, pres_b, zero, form });
         prop_oneof![3 => grid_case, 1 => free_case].boxed()
     }
     fn check(case: &Case, st: &mut Stats) -> Verdict {
@@ -270,7 +301,7 @@ impl Property for C02 {
         crate::c02x::exhaustive(tier, st)
     }
     fn rule() -> String {
-        "generated: (type, op in {+,-,neg,*,/,powi(n in -6..8),recip}, two operands, presence pattern of every optional part); 75% of the cases draw every part from the dyadic grid k*2^-s (|k|<=8, s<=3; divisor / negative-power base real parts +-2^k) where every algebraically correct evaluation is rounding-free: there the oracle (reference algebra whose every + and * is verified exact by TwoSum/FMA residuals) must be matched BIT FOR BIT; 25% arbitrary operands compared with 32*u*e. In addition tensor grids are enumerated exhaustively for the five scalar f64 types (deg+1 points per operand part, see counters). Non-trivial: op is * or /, both operands have >= 2 non-zero derivative parts that are not multiples of each other, not ill-conditioned; distinct case fingerprints.".into()
+        "generated: (type, op in {+,-,neg,*,/,powi(n in -6..8),recip} spelled as owned, compound-assignment or borrowed-rhs form, two operands, presence pattern of every optional part); 75% of the cases draw every part from the dyadic grid k*2^-s (|k|<=8, s<=3; divisor / negative-power base real parts +-2^k) where every algebraically correct evaluation is rounding-free: there the oracle (reference algebra whose every + and * is verified exact by TwoSum/FMA residuals) must be matched BIT FOR BIT; 25% arbitrary operands compared with 32*u*e. In addition tensor grids are enumerated exhaustively for the five scalar f64 types (deg+1 points per operand part, see counters). Non-trivial: op is * or /, both operands have >= 2 non-zero derivative parts that are not multiples of each other, not ill-conditioned; distinct case fingerprints.".into()
     }
     fn assumptions() -> Vec<String> {
         vec![
